@@ -3,6 +3,7 @@
 mod acc;
 mod art;
 mod cli;
+mod codes;
 mod dfs;
 mod ess;
 mod flags;
@@ -71,6 +72,7 @@ fn main() {
         "acc" => acc::run(seed, count, maxn, &mode, &mut out),
         "art" => art::run(seed, count, maxn, &mode, &mut out),
         "flags" => flags::run(seed, count, &mut out),
+        "codes" => codes::run(seed, count, &mut out),
         "dfs" => dfs::run(seed, count, maxn, &mode, &mut out),
         "hball" => hball::run(seed, count, maxn, &mode, &mut out),
         "llp" => llp::run(seed, count, maxn, &mode, &args, &mut out),
